@@ -56,10 +56,10 @@ PROPS = {
                     'clause (ii) is proved for the end of the step (if the step pressed a non-modifier key, the absorbed key is not held afterwards unless a mapping in effect outputs it), not for every instant inside the step'],
                 witness='mapper', rests_on=['C19']),
     'C09': dict(units=['mapper'], level='proof', trusted_base=TB_MAPPER, assumptions=AS_MAPPER, witness='mapper'),
-    'C10': dict(units=['loop'], level='proof', trusted_base=TB_LOOP, assumptions=AS_LOOP, witness=None),
-    'C11': dict(units=['loop'], level='proof', trusted_base=TB_LOOP, assumptions=AS_LOOP, witness=None, rests_on=['C09']),
-    'C12': dict(units=['loop'], level='proof', trusted_base=TB_LOOP, assumptions=AS_LOOP, witness=None),
-    'C20': dict(units=['loop'], level='proof', trusted_base=TB_LOOP, assumptions=AS_LOOP, witness=None),
+    'C10': dict(units=['loop'], level='proof', trusted_base=TB_LOOP, assumptions=AS_LOOP, witness='loop'),
+    'C11': dict(units=['loop'], level='proof', trusted_base=TB_LOOP, assumptions=AS_LOOP, witness='loop', rests_on=['C09']),
+    'C12': dict(units=['loop'], level='proof', trusted_base=TB_LOOP, assumptions=AS_LOOP, witness='loop'),
+    'C20': dict(units=['loop'], level='proof', trusted_base=TB_LOOP, assumptions=AS_LOOP, witness='loop'),
     'C14': dict(units=['converter', 'mapper', 'glue'], level='proof', trusted_base=TB_MAPPER + TB_CONV[4:], assumptions=AS_CONV + AS_MAPPER, witness='loader'),
     'C13': dict(units=['converter'], level='proof', trusted_base=TB_CONV, assumptions=AS_CONV, witness='loader'),
     'C17': dict(units=['udev'], level='proof', extras=['udev_enum'], witness=None,
